@@ -107,6 +107,13 @@ class TreeOracle(Monitor):
                     cond = ind[2][0]
                     if cond != 0 and c.dispo:
                         may_delete = self.cur.get(key)
+        # a File Data PDU handed to a handler that is, by its public step, still receiving file data is accepted (and,
+        # by the clauses above, written): silently dropping it is not an option the write model has
+        if rec.hk == "dst" and rec.op == "sm" and rec.inb_kind == "FD" and rec.exc is None and rec.pre.step in (
+            "RECEIVING_FILE_DATA", "RECV_FILE_DATA_WITH_CHECK_LIMIT_HANDLING", "WAITING_FOR_MISSING_DATA"
+        ) and not any(i[0] == "file_segment_recv" for i in rec.inds):
+            w.violate("C05.delivered_not_accepted", f"File Data PDU dropped in step {rec.pre.step}->{rec.post.step} mode={c.mode.name[:5]} faults={[f[2] for f in rec.faults]}",
+                      f"offset={rec.inb_info[1]} len={rec.inb_info[2]}")
         real = w.vfs_a.h_tree()
         if real == self.tree:
             return
